@@ -318,6 +318,33 @@ func fuzzBinEntry(b *recB, f *feeder, e wirereg.Entry, rng *rand.Rand, lv binLev
 			}
 		}
 	}
+	// block outlines end in one kind byte per transaction (full v1 / full v2 / omitted): every relabelling of the
+	// last up to six of them, the counts per kind right or wrong
+	if strings.Contains(e.Name, "Outline") {
+		for ei, enc := range encs {
+			if ei >= 2 || len(enc) < 8 {
+				continue
+			}
+			for k := 1; k <= 6 && k <= len(enc); k++ {
+				n := 1
+				for i := 0; i < k; i++ {
+					n *= 3
+				}
+				for code := 0; code < n; code++ {
+					d := cp(enc)
+					changed := false
+					for i, c := 0, code; i < k; i, c = i+1, c/3 {
+						if v := byte(c % 3); d[len(d)-1-i] != v {
+							d[len(d)-1-i], changed = v, true
+						}
+					}
+					if changed {
+						f.add("outline-kinds", fmt.Sprintf("last-%d", k), d)
+					}
+				}
+			}
+		}
+	}
 	for _, enc := range encs {
 		lenAttack(enc, true)
 	}
